@@ -3,12 +3,8 @@
 //! usage: hdv <Cnn> [--tier quick|thorough] [--replay FILE] [--trace]
 //! env: VERIF_SEED, VERIF_TIER, VERIF_SCALE, VERIF_THREADS
 
-mod common;
-mod engines;
-mod panichook;
-mod props;
-
-use common::{Ctx, Tier, DEFAULT_SEED};
+use hdv::common::{self, Ctx, Tier, DEFAULT_SEED};
+use hdv::{panichook, props};
 
 fn main() {
     let args: Vec<String> = std::env::args().skip(1).collect();
